@@ -142,7 +142,72 @@ def check_layout(prog: Program, res: Result) -> None:
     res.floor(R, 8)
 
 
+def check_candidates(prog: Program, res: Result, R: str = "C03-cand") -> None:
+    """get_connection_candidates pairs the peaks of an edge's source node type with those of its destination node type: the
+    per-node groups it indexes with the edge's node indices must be INDEXED BY NODE - group k holds the peaks whose channel
+    is k, also when some node type has no peak in the frame.  Recognised: one mask per k over range(n_nodes); a split by
+    per-node counts that include the empty node types (bincount(..., minlength=n_nodes)).  A split by the run lengths of
+    the node types that are PRESENT (unique / unique_consecutive counts) shifts every group after an absent node type."""
+    fi = prog.func(f"{PG}:get_connection_candidates")
+    res.touch(fi)
+    fn = fi.node
+    # the list indexed by the endpoints of the skeleton edges
+    edge_vars = set()
+    for lp in list(walk_function(fn)):
+        gens = [lp] if isinstance(lp, ast.For) else (lp.generators if isinstance(lp, (ast.ListComp, ast.GeneratorExp)) else [])
+        for g in gens:
+            if "skeleton_edges" in norm(g.iter):
+                edge_vars |= astq.target_names(g.target)
+    groups = {n.value.id for n in walk_function(fn) if isinstance(n, ast.Subscript) and isinstance(n.value, ast.Name) and isinstance(n.slice, ast.Name) and n.slice.id in edge_vars}
+    res.ob(R, len(groups) == 1, fi.qualname, "one per-node grouping is indexed by the edge endpoints", f"{len(groups)} lists are indexed by the edge endpoints: {sorted(groups)}", fi.where)
+    for gname in groups:
+        builds = astq.list_builds(fn, gname)
+        verdict, why = None, ""
+        if len(builds) == 1 and len(builds[0].gens) == 1 and not builds[0].conds:
+            b = builds[0]
+            le = astq.loop_elems(b.gens[0], fn)
+            it = b.gens[0].iter
+            over_nodes = isinstance(it, ast.Call) and norm(it.func) == "range" and len(it.args) == 1 and astq.xnorm(fn, it.args[0]) == "n_nodes"
+            k = norm(b.gens[0].target)
+            site = b.site if isinstance(b.site, ast.stmt) else enclosing_stmt(b.site)
+            elt = astq.expand_at(fn, b.elt, site, keep=[k])
+            m = astq.mask_of(fn, elt.slice, at=site) if isinstance(elt, ast.Subscript) else None
+            if over_nodes and isinstance(m, ast.Compare) and len(m.ops) == 1 and isinstance(m.ops[0], ast.Eq) and k in (norm(m.left), norm(m.comparators[0])):
+                verdict = True
+            else:
+                verdict, why = None, f"list built over `{short(it, 30)}` with element `{short(b.elt, 40)}`"
+        else:
+            ds = [getattr(s_, "value", None) for s_ in astq.assignments_to(fn, gname)]
+            des = [astq.expand(fn, d_) for d_ in ds if d_ is not None]
+            de = des[0] if des else None
+            # the text of everything the grouping is computed from (three levels of definitions back)
+            seen_n, frontier, parts = {gname}, set().union(*[astq.names_in(x) for x in des]) if des else set(), [norm(x) for x in des]
+            for _ in range(3):
+                nxt = set()
+                for st_ in walk_function(fn):
+                    if isinstance(st_, (ast.Assign, ast.AugAssign)) and any(astq.target_names(t_) & frontier for t_ in astq.stmt_targets(st_)) and st_.value is not None:
+                        parts.append(norm(st_.value))
+                        nxt |= astq.names_in(st_.value)
+                seen_n |= frontier
+                frontier = nxt - seen_n
+            txt = " ; ".join(parts)
+            if "split(" in txt and ("unique_consecutive" in txt or "unique(" in txt) and "minlength" not in txt:
+                verdict, why = False, "a split by the run lengths of the node types that are present"
+            elif "split(" in txt and "bincount" in txt and "minlength" in txt:
+                verdict = True
+            else:
+                why = f"`{short(de, 60) if de is not None else gname}`"
+        if verdict is None:
+            res.inconclusive(f"{fi.qualname}: per-node grouping `{gname}` is built in an unrecognised way ({why})")
+            continue
+        res.ob(R, verdict, fi.qualname, f"`{gname}[k]` holds the peaks of node type k for every k < n_nodes",
+               f"`{gname}` is {why}: when a node type other than the last ones has no peak in the frame every later group shifts down, the edge candidates pair the wrong "
+               "node types and the animals are not assembled", fi.where)
+    res.floor(R, 2)
+
+
 def check(prog: Program, res: Result) -> None:
+    check_candidates(prog, res)
     c02.check_entries(prog, res, ("bottomup",), rule_out="C03-out", rule_own="C03-own", prefix="C03")
     check_lines_premises(prog, res)
     check_layout(prog, res)
@@ -153,6 +218,8 @@ def check(prog: Program, res: Result) -> None:
     res.borrow(c06.check_rough, "C03-peaks", prog)
     res.borrow(c06.check_refine, "C03-peaks", prog)
     res.borrow(c12.check_split, "C03-peaks", prog)
+    from . import _batch
+    _batch.check_per_sample_lists(prog, res, "C03-batch", ["sleap_nn.inference.paf_grouping:score_paf_lines_batch", "sleap_nn.inference.paf_grouping:match_candidates_batch", "sleap_nn.inference.paf_grouping:group_instances_batch"], floor=9)
     res.assumptions += ["that grouping returns exactly the labelled animals (numerical PAF integral) is not decided", "channel numbering 2e+c is pinned by the existing tests"]
 
 
